@@ -1,15 +1,723 @@
-// Package vinstr is the E1 source instrumenter (see DESIGN.md §2.1).
+// Package vinstr is the E1 source instrumenter (DESIGN.md §2.1): it rewrites every
+// synchronisation construct of the configured files into calls of package vsched, using go/ast
+// with type information from go/packages. The rewritten copies are injected with
+// `go build -overlay`; /repo is never modified. Anything it cannot handle is a hard error
+// (the check then exits 2 — infrastructure — and never prints VIOLATION).
 package vinstr
+
+import (
+	"bytes"
+	"fmt"
+	"go/ast"
+	"go/printer"
+	"go/token"
+	"go/types"
+	"os"
+	"path/filepath"
+	"strconv"
+	"strings"
+
+	"golang.org/x/tools/go/ast/astutil"
+	"golang.org/x/tools/go/packages"
+)
 
 type Config struct {
 	OutDir     string
 	StmtPoints bool
 	// SourceOverride maps an original path under /repo to the file to read instead.
 	SourceOverride map[string]string
+	// Packages to instrument and, per package, base names of files to leave alone.
+	Packages map[string][]string
+	// StmtPointFiles: base names of files that get a scheduling point before every statement.
+	StmtPointFiles []string
+	Dir            string
+	Tags           string
 }
 
-func DefaultConfig(out string) Config { return Config{OutDir: out} }
+const (
+	pkgRepo    = "github.com/high-moctane/mocrelay"
+	pkgSQLite  = "github.com/high-moctane/mocrelay/handler/sqlite"
+	pkgProm    = "github.com/high-moctane/mocrelay/middleware/prometheus"
+	pkgHarness = "verifkit/harness"
+	vschedPath = "verifkit/vsched"
+	vsyncPath  = "verifkit/vsched/vsync"
+)
 
-// Run instruments the configured files of /repo into cfg.OutDir and returns the overlay map
+func DefaultConfig(out string) Config {
+	return Config{
+		OutDir: out,
+		Packages: map[string][]string{
+			// the HTTP/WebSocket layer is engine E3's domain (real network stack, not schedulable)
+			pkgRepo:    {"relay.go", "server.go", "nip11.go", "message.go", "context.go"},
+			pkgSQLite:  {},
+			pkgProm:    {},
+			pkgHarness: {},
+		},
+		StmtPointFiles: []string{"event_cache.go", "data_structure.go"},
+		Dir:            "/verif",
+		Tags:           "verif",
+	}
+}
+
+// Run instruments the configured files into cfg.OutDir and returns the overlay map
 // (original path -> generated path).
-func Run(cfg Config) (map[string]string, error) { return map[string]string{}, nil }
+func Run(cfg Config) (map[string]string, error) {
+	pcfg := &packages.Config{
+		Mode:       packages.NeedName | packages.NeedFiles | packages.NeedCompiledGoFiles | packages.NeedSyntax | packages.NeedTypes | packages.NeedTypesInfo | packages.NeedImports | packages.NeedDeps,
+		Dir:        cfg.Dir,
+		BuildFlags: []string{"-tags=" + cfg.Tags},
+		Env:        append(os.Environ(), "GOFLAGS=-mod=mod", "GOPROXY=off", "GOSUMDB=off", "GOTOOLCHAIN=local", "CGO_ENABLED=1"),
+	}
+	if len(cfg.SourceOverride) > 0 {
+		pcfg.Overlay = map[string][]byte{}
+		for orig, repl := range cfg.SourceOverride {
+			b, err := os.ReadFile(repl)
+			if err != nil {
+				return nil, err
+			}
+			pcfg.Overlay[orig] = b
+		}
+	}
+	var pats []string
+	for p := range cfg.Packages {
+		pats = append(pats, p)
+	}
+	pkgs, err := packages.Load(pcfg, pats...)
+	if err != nil {
+		return nil, fmt.Errorf("packages.Load: %w", err)
+	}
+	out := map[string]string{}
+	if err := os.MkdirAll(cfg.OutDir, 0o755); err != nil {
+		return nil, err
+	}
+	for _, pkg := range pkgs {
+		if len(pkg.Errors) > 0 {
+			return nil, fmt.Errorf("package %s does not type-check: %v", pkg.PkgPath, pkg.Errors[0])
+		}
+		skip := map[string]bool{}
+		for _, s := range cfg.Packages[pkg.PkgPath] {
+			skip[s] = true
+		}
+		for i, f := range pkg.Syntax {
+			path := pkg.CompiledGoFiles[i]
+			base := filepath.Base(path)
+			if skip[base] || strings.HasSuffix(base, "_test.go") || strings.HasPrefix(base, "zz_verif_") {
+				continue
+			}
+			stmt := false
+			if cfg.StmtPoints {
+				for _, s := range cfg.StmtPointFiles {
+					if s == base && pkg.PkgPath == pkgRepo {
+						stmt = true
+					}
+				}
+			}
+			in := &instr{pkg: pkg, info: pkg.TypesInfo, fset: pkg.Fset, file: f, stmtPoints: stmt}
+			changed, err := in.rewrite()
+			if err != nil {
+				return nil, fmt.Errorf("%s: %w", path, err)
+			}
+			if !changed {
+				continue
+			}
+			var buf bytes.Buffer
+			// keep build constraints
+			for _, cg := range in.buildLines {
+				buf.WriteString(cg + "\n")
+			}
+			if len(in.buildLines) > 0 {
+				buf.WriteString("\n")
+			}
+			f.Comments = nil
+			if err := (&printer.Config{Mode: printer.TabIndent, Tabwidth: 8}).Fprint(&buf, pkg.Fset, f); err != nil {
+				return nil, fmt.Errorf("%s: print: %w", path, err)
+			}
+			dst := filepath.Join(cfg.OutDir, strings.ReplaceAll(pkg.PkgPath, "/", "_")+"__"+base)
+			if err := os.WriteFile(dst, buf.Bytes(), 0o644); err != nil {
+				return nil, err
+			}
+			out[path] = dst
+		}
+	}
+	return out, nil
+}
+
+type instr struct {
+	pkg        *packages.Package
+	info       *types.Info
+	fset       *token.FileSet
+	file       *ast.File
+	stmtPoints bool
+	buildLines []string
+
+	usedVsched bool
+	changed    bool
+	skipNodes  map[ast.Node]bool
+	recvCalls  map[*ast.CallExpr]bool
+	tmp        int
+	err        error
+}
+
+func (in *instr) fail(n ast.Node, format string, a ...any) {
+	if in.err == nil {
+		in.err = fmt.Errorf("%s: %s", in.fset.Position(n.Pos()), fmt.Sprintf(format, a...))
+	}
+}
+
+func (in *instr) vs(name string) ast.Expr {
+	in.usedVsched = true
+	in.changed = true
+	return &ast.SelectorExpr{X: ast.NewIdent("vsched"), Sel: ast.NewIdent(name)}
+}
+
+func (in *instr) call(name string, args ...ast.Expr) *ast.CallExpr {
+	return &ast.CallExpr{Fun: in.vs(name), Args: args}
+}
+
+func (in *instr) newTmp(prefix string) *ast.Ident {
+	in.tmp++
+	return ast.NewIdent(fmt.Sprintf("_v%s%d", prefix, in.tmp))
+}
+
+func (in *instr) isChan(e ast.Expr) bool {
+	t := in.info.TypeOf(e)
+	if t == nil {
+		return false
+	}
+	_, ok := coreType(t).(*types.Chan)
+	return ok
+}
+
+func coreType(t types.Type) types.Type {
+	u := t.Underlying()
+	if tp, ok := u.(*types.Interface); ok && tp.NumEmbeddeds() > 0 {
+		// type parameter constraint with a single core type
+		_ = tp
+	}
+	if tp, ok := t.(*types.TypeParam); ok {
+		if iface, ok := tp.Constraint().Underlying().(*types.Interface); ok {
+			var core types.Type
+			for i := 0; i < iface.NumEmbeddeds(); i++ {
+				if un, ok := iface.EmbeddedType(i).(*types.Union); ok && un.Len() == 1 {
+					core = un.Term(0).Type().Underlying()
+				}
+			}
+			if core != nil {
+				return core
+			}
+		}
+	}
+	return u
+}
+
+func (in *instr) isMap(e ast.Expr) bool {
+	t := in.info.TypeOf(e)
+	if t == nil {
+		return false
+	}
+	_, ok := coreType(t).(*types.Map)
+	return ok
+}
+
+func (in *instr) isBuiltin(id *ast.Ident, name string) bool {
+	if id.Name != name {
+		return false
+	}
+	obj := in.info.Uses[id]
+	_, ok := obj.(*types.Builtin)
+	return ok
+}
+
+func (in *instr) pkgSel(e ast.Expr, pkgPath, name string) bool {
+	sel, ok := e.(*ast.SelectorExpr)
+	if !ok || sel.Sel.Name != name {
+		return false
+	}
+	id, ok := sel.X.(*ast.Ident)
+	if !ok {
+		return false
+	}
+	pn, ok := in.info.Uses[id].(*types.PkgName)
+	return ok && pn.Imported().Path() == pkgPath
+}
+
+func (in *instr) isCancelFunc(e ast.Expr) bool {
+	t := in.info.TypeOf(e)
+	if t == nil {
+		return false
+	}
+	n, ok := t.(*types.Named)
+	if !ok {
+		if a, ok2 := t.(*types.Alias); ok2 {
+			n, ok = types.Unalias(a).(*types.Named)
+		}
+		if !ok {
+			return false
+		}
+	}
+	return n.Obj().Pkg() != nil && n.Obj().Pkg().Path() == "context" && n.Obj().Name() == "CancelFunc"
+}
+
+// containsSchedOp: does the subtree contain a construct that reaches the scheduler or calls
+// through a function value (whose body may)?
+func (in *instr) bodyNeedsOrder(body *ast.BlockStmt) bool {
+	found := false
+	ast.Inspect(body, func(n ast.Node) bool {
+		switch n := n.(type) {
+		case *ast.GoStmt, *ast.SendStmt, *ast.SelectStmt:
+			found = true
+		case *ast.UnaryExpr:
+			if n.Op == token.ARROW {
+				found = true
+			}
+		case *ast.CallExpr:
+			// call through a func-typed variable / parameter / field
+			switch f := n.Fun.(type) {
+			case *ast.Ident:
+				if _, ok := in.info.Uses[f].(*types.Var); ok {
+					found = true
+				}
+			case *ast.SelectorExpr:
+				if s, ok := in.info.Selections[f]; ok && s.Kind() == types.FieldVal {
+					found = true
+				}
+			case *ast.FuncLit, *ast.CallExpr, *ast.IndexExpr:
+				found = true
+			}
+		}
+		return !found
+	})
+	return found
+}
+
+func (in *instr) rewrite() (bool, error) {
+	in.skipNodes = map[ast.Node]bool{}
+	in.recvCalls = map[*ast.CallExpr]bool{}
+	// build constraints
+	for _, cg := range in.file.Comments {
+		if cg.Pos() > in.file.Package {
+			break
+		}
+		for _, c := range cg.List {
+			if strings.HasPrefix(c.Text, "//go:build") {
+				in.buildLines = append(in.buildLines, c.Text)
+			}
+		}
+	}
+	// imports: sync -> vsync
+	for _, imp := range in.file.Imports {
+		p, _ := strconv.Unquote(imp.Path.Value)
+		if p == "sync" {
+			imp.Path.Value = strconv.Quote(vsyncPath)
+			if imp.Name == nil {
+				imp.Name = ast.NewIdent("sync")
+			}
+			in.changed = true
+		}
+	}
+
+	pre := func(c *astutil.Cursor) bool {
+		switch n := c.Node().(type) {
+		case *ast.CommClause:
+			switch cm := n.Comm.(type) {
+			case *ast.SendStmt:
+				in.skipNodes[cm] = true
+			case *ast.ExprStmt:
+				in.skipNodes[ast.Unparen(cm.X)] = true
+			case *ast.AssignStmt:
+				if len(cm.Rhs) == 1 {
+					in.skipNodes[ast.Unparen(cm.Rhs[0])] = true
+				}
+			}
+		}
+		return true
+	}
+	post := func(c *astutil.Cursor) bool {
+		if in.err != nil {
+			return false
+		}
+		switch n := c.Node().(type) {
+		case *ast.GoStmt:
+			c.Replace(in.rewriteGo(n))
+		case *ast.SendStmt:
+			if in.skipNodes[n] {
+				return true
+			}
+			c.Replace(&ast.ExprStmt{X: &ast.CallExpr{Fun: in.call("SendTo", n.Chan), Args: []ast.Expr{n.Value}}})
+		case *ast.UnaryExpr:
+			if n.Op != token.ARROW || in.skipNodes[n] {
+				return true
+			}
+			call := in.call("Recv", n.X)
+			in.recvCalls[call] = true
+			c.Replace(call)
+		case *ast.AssignStmt:
+			if len(n.Lhs) == 2 && len(n.Rhs) == 1 {
+				if call, ok := n.Rhs[0].(*ast.CallExpr); ok && in.recvCalls[call] {
+					call.Fun.(*ast.SelectorExpr).Sel.Name = "Recv2"
+				}
+			}
+		case *ast.ValueSpec:
+			if len(n.Names) == 2 && len(n.Values) == 1 {
+				if call, ok := n.Values[0].(*ast.CallExpr); ok && in.recvCalls[call] {
+					call.Fun.(*ast.SelectorExpr).Sel.Name = "Recv2"
+				}
+			}
+		case *ast.SelectStmt:
+			c.Replace(in.rewriteSelect(n))
+		case *ast.RangeStmt:
+			if in.isChan(n.X) {
+				c.Replace(in.rewriteRangeChan(n))
+			} else if in.isMap(n.X) && in.bodyNeedsOrder(n.Body) {
+				if r := in.rewriteRangeMap(n); r != nil {
+					c.Replace(r)
+				}
+			}
+		case *ast.CallExpr:
+			if in.recvCalls[n] {
+				return true
+			}
+			if id, ok := n.Fun.(*ast.Ident); ok {
+				switch {
+				case in.isBuiltin(id, "close") && len(n.Args) == 1:
+					n.Fun = in.vs("Close")
+				case in.isBuiltin(id, "len") && len(n.Args) == 1 && in.isChan(n.Args[0]):
+					n.Fun = in.vs("Len")
+				case in.isBuiltin(id, "make") && in.isChan(n):
+					c.Replace(in.call("Made", n))
+				}
+			}
+			if len(n.Args) == 0 && in.isCancelFunc(n.Fun) {
+				c.Replace(in.call("Cancel", n.Fun))
+			}
+		case *ast.SelectorExpr:
+			switch {
+			case in.pkgSel(n, "github.com/google/uuid", "NewString"):
+				c.Replace(in.vs("NewID"))
+			case in.pkgSel(n, "time", "Now"):
+				c.Replace(in.vs("Now"))
+			case in.pkgSel(n, "time", "Since"):
+				c.Replace(in.vs("Since"))
+			case in.pkgSel(n, "time", "Until"):
+				c.Replace(in.vs("Until"))
+			}
+		}
+		return true
+	}
+	astutil.Apply(in.file, pre, post)
+	if in.err != nil {
+		return false, in.err
+	}
+	if in.stmtPoints {
+		in.addStmtPoints()
+	}
+	if !in.changed {
+		return false, nil
+	}
+	if in.usedVsched {
+		have := false
+		for _, imp := range in.file.Imports {
+			if v, _ := strconv.Unquote(imp.Path.Value); v == vschedPath {
+				have = true
+				if imp.Name != nil && imp.Name.Name != "vsched" {
+					return false, fmt.Errorf("verifkit/vsched must be imported under its own name")
+				}
+			}
+		}
+		if !have {
+			astutil.AddNamedImport(in.fset, in.file, "vsched", vschedPath)
+		}
+	}
+	for _, p := range []string{"github.com/google/uuid", "time"} {
+		if !usesImport(in.file, p) {
+			astutil.DeleteImport(in.fset, in.file, p)
+			// named import variant
+			for _, imp := range in.file.Imports {
+				if v, _ := strconv.Unquote(imp.Path.Value); v == p && imp.Name != nil {
+					astutil.DeleteNamedImport(in.fset, in.file, imp.Name.Name, p)
+				}
+			}
+		}
+	}
+	return true, nil
+}
+
+func usesImport(f *ast.File, path string) bool {
+	name := ""
+	found := false
+	for _, imp := range f.Imports {
+		if v, _ := strconv.Unquote(imp.Path.Value); v == path {
+			found = true
+			if imp.Name != nil {
+				name = imp.Name.Name
+			} else {
+				name = path[strings.LastIndexByte(path, '/')+1:]
+			}
+		}
+	}
+	if !found {
+		return true // nothing to delete
+	}
+	if name == "_" || name == "." {
+		return true
+	}
+	used := false
+	ast.Inspect(f, func(n ast.Node) bool {
+		if sel, ok := n.(*ast.SelectorExpr); ok {
+			if id, ok := sel.X.(*ast.Ident); ok && id.Name == name && id.Obj == nil {
+				used = true
+			}
+		}
+		return !used
+	})
+	return used
+}
+
+func (in *instr) rewriteGo(n *ast.GoStmt) ast.Stmt {
+	call := n.Call
+	if fl, ok := call.Fun.(*ast.FuncLit); ok && len(call.Args) == 0 {
+		return &ast.ExprStmt{X: in.call("Go", fl)}
+	}
+	var stmts []ast.Stmt
+	fun := call.Fun
+	// evaluate a method value / function value now, as the go statement does
+	needTmp := false
+	switch f := ast.Unparen(fun).(type) {
+	case *ast.SelectorExpr:
+		if s, ok := in.info.Selections[f]; ok && (s.Kind() == types.MethodVal || s.Kind() == types.FieldVal) {
+			needTmp = true
+		}
+	case *ast.Ident:
+		if _, ok := in.info.Uses[f].(*types.Var); ok {
+			needTmp = true
+		}
+	case *ast.FuncLit:
+		needTmp = false
+	default:
+		needTmp = true
+	}
+	if needTmp {
+		if sig, ok := in.info.TypeOf(fun).(*types.Signature); ok && sig.TypeParams() != nil {
+			needTmp = false
+		}
+	}
+	if needTmp {
+		t := in.newTmp("f")
+		stmts = append(stmts, &ast.AssignStmt{Lhs: []ast.Expr{t}, Tok: token.DEFINE, Rhs: []ast.Expr{fun}})
+		fun = t
+	}
+	var args []ast.Expr
+	if len(call.Args) > 0 {
+		var lhs []ast.Expr
+		for range call.Args {
+			t := in.newTmp("a")
+			lhs = append(lhs, t)
+			args = append(args, t)
+		}
+		// typed temporaries: untyped constants would otherwise take their default type
+		for i, a := range call.Args {
+			if tv, ok := in.info.Types[a]; ok && tv.Value != nil {
+				if b, ok := tv.Type.(*types.Basic); ok && b.Info()&types.IsUntyped != 0 {
+					// keep the constant expression itself inside the closure instead
+					args[i] = a
+					lhs[i] = ast.NewIdent("_")
+				}
+			}
+		}
+		stmts = append(stmts, &ast.AssignStmt{Lhs: lhs, Tok: token.DEFINE, Rhs: append([]ast.Expr{}, call.Args...)})
+		allBlank := true
+		for _, l := range lhs {
+			if l.(*ast.Ident).Name != "_" {
+				allBlank = false
+			}
+		}
+		if allBlank {
+			stmts = stmts[:len(stmts)-1]
+		}
+	}
+	inner := &ast.CallExpr{Fun: fun, Args: args, Ellipsis: call.Ellipsis}
+	if call.Ellipsis != token.NoPos {
+		inner.Ellipsis = 1
+	}
+	lit := &ast.FuncLit{Type: &ast.FuncType{Params: &ast.FieldList{}}, Body: &ast.BlockStmt{List: []ast.Stmt{&ast.ExprStmt{X: inner}}}}
+	stmts = append(stmts, &ast.ExprStmt{X: in.call("Go", lit)})
+	if len(stmts) == 1 {
+		return stmts[0]
+	}
+	return &ast.BlockStmt{List: stmts}
+}
+
+func (in *instr) rewriteSelect(n *ast.SelectStmt) ast.Stmt {
+	var lhs, rhs []ast.Expr
+	var clauses []ast.Stmt
+	hasDefault := false
+	idx := 0
+	for _, s := range n.Body.List {
+		cc := s.(*ast.CommClause)
+		if cc.Comm == nil {
+			hasDefault = true
+			clauses = append(clauses, &ast.CaseClause{List: nil, Body: cc.Body})
+			continue
+		}
+		tmp := in.newTmp("c")
+		lhs = append(lhs, tmp)
+		body := cc.Body
+		switch cm := cc.Comm.(type) {
+		case *ast.SendStmt:
+			rhs = append(rhs, &ast.CallExpr{Fun: in.call("CaseSend", cm.Chan), Args: []ast.Expr{cm.Value}})
+		case *ast.ExprStmt:
+			u, ok := ast.Unparen(cm.X).(*ast.UnaryExpr)
+			if !ok || u.Op != token.ARROW {
+				in.fail(cm, "unsupported select communication")
+				return n
+			}
+			rhs = append(rhs, in.call("CaseRecv", u.X))
+		case *ast.AssignStmt:
+			u, ok := ast.Unparen(cm.Rhs[0]).(*ast.UnaryExpr)
+			if !ok || u.Op != token.ARROW {
+				in.fail(cm, "unsupported select communication")
+				return n
+			}
+			rhs = append(rhs, in.call("CaseRecv", u.X))
+			got := "Got"
+			if len(cm.Lhs) == 2 {
+				got = "Got2"
+			}
+			in.usedVsched = true
+			asg := &ast.AssignStmt{Lhs: cm.Lhs, Tok: cm.Tok, Rhs: []ast.Expr{&ast.CallExpr{Fun: &ast.SelectorExpr{X: tmp, Sel: ast.NewIdent(got)}}}}
+			allBlank := true
+			for _, l := range cm.Lhs {
+				if id, ok := l.(*ast.Ident); !ok || id.Name != "_" {
+					allBlank = false
+				}
+			}
+			if allBlank {
+				asg.Tok = token.ASSIGN
+			}
+			body = append([]ast.Stmt{asg}, body...)
+		default:
+			in.fail(cc, "unsupported select communication")
+			return n
+		}
+		clauses = append(clauses, &ast.CaseClause{List: []ast.Expr{&ast.BasicLit{Kind: token.INT, Value: strconv.Itoa(idx)}}, Body: body})
+		idx++
+	}
+	hd := "false"
+	if hasDefault {
+		hd = "true"
+	} else {
+		// keeps the switch a terminating statement exactly when the select was one
+		clauses = append(clauses, &ast.CaseClause{List: nil, Body: []ast.Stmt{&ast.ExprStmt{X: &ast.CallExpr{Fun: ast.NewIdent("panic"), Args: []ast.Expr{&ast.BasicLit{Kind: token.STRING, Value: `"vsched: select returned no case"`}}}}}})
+	}
+	args := []ast.Expr{ast.NewIdent(hd)}
+	for _, l := range lhs {
+		args = append(args, l)
+	}
+	sw := &ast.SwitchStmt{Tag: in.call("Select", args...), Body: &ast.BlockStmt{List: clauses}}
+	if len(lhs) == 0 {
+		return sw
+	}
+	return &ast.BlockStmt{List: []ast.Stmt{
+		&ast.AssignStmt{Lhs: lhs, Tok: token.DEFINE, Rhs: rhs},
+		sw,
+	}}
+}
+
+func (in *instr) rewriteRangeChan(n *ast.RangeStmt) ast.Stmt {
+	rc := in.newTmp("rc")
+	ok := in.newTmp("ok")
+	var first ast.Stmt
+	key := n.Key
+	if key == nil {
+		key = ast.NewIdent("_")
+	}
+	if n.Tok == token.ASSIGN {
+		first = &ast.BlockStmt{List: []ast.Stmt{}}
+		in.fail(n, "range over channel with '=' is not supported")
+		return n
+	}
+	first = &ast.AssignStmt{Lhs: []ast.Expr{key, ok}, Tok: token.DEFINE, Rhs: []ast.Expr{in.call("Recv2", rc)}}
+	brk := &ast.IfStmt{Cond: &ast.UnaryExpr{Op: token.NOT, X: ok}, Body: &ast.BlockStmt{List: []ast.Stmt{&ast.BranchStmt{Tok: token.BREAK}}}}
+	body := append([]ast.Stmt{first, brk}, n.Body.List...)
+	return &ast.ForStmt{
+		Init: &ast.AssignStmt{Lhs: []ast.Expr{rc}, Tok: token.DEFINE, Rhs: []ast.Expr{n.X}},
+		Body: &ast.BlockStmt{List: body},
+	}
+}
+
+func (in *instr) rewriteRangeMap(n *ast.RangeStmt) ast.Stmt {
+	if n.Tok == token.ASSIGN {
+		in.fail(n, "range over map with '=' whose body reaches the scheduler is not supported")
+		return nil
+	}
+	// the map expression must be cheap and pure to evaluate twice
+	switch ast.Unparen(n.X).(type) {
+	case *ast.Ident, *ast.SelectorExpr:
+	default:
+		in.fail(n, "range over a computed map whose body reaches the scheduler is not supported")
+		return nil
+	}
+	key := n.Key
+	if key == nil || isBlank(key) {
+		key = in.newTmp("k")
+	}
+	var pre []ast.Stmt
+	if n.Value != nil && !isBlank(n.Value) {
+		ok := in.newTmp("ok")
+		pre = append(pre,
+			&ast.AssignStmt{Lhs: []ast.Expr{n.Value, ok}, Tok: token.DEFINE, Rhs: []ast.Expr{&ast.IndexExpr{X: n.X, Index: key}}},
+			&ast.IfStmt{Cond: &ast.UnaryExpr{Op: token.NOT, X: ok}, Body: &ast.BlockStmt{List: []ast.Stmt{&ast.BranchStmt{Tok: token.CONTINUE}}}},
+		)
+	} else {
+		ok := in.newTmp("ok")
+		pre = append(pre,
+			&ast.AssignStmt{Lhs: []ast.Expr{ast.NewIdent("_"), ok}, Tok: token.DEFINE, Rhs: []ast.Expr{&ast.IndexExpr{X: n.X, Index: key}}},
+			&ast.IfStmt{Cond: &ast.UnaryExpr{Op: token.NOT, X: ok}, Body: &ast.BlockStmt{List: []ast.Stmt{&ast.BranchStmt{Tok: token.CONTINUE}}}},
+		)
+	}
+	return &ast.RangeStmt{
+		Key:   ast.NewIdent("_"),
+		Value: key,
+		Tok:   token.DEFINE,
+		X:     in.call("RangeKeys", n.X),
+		Body:  &ast.BlockStmt{List: append(pre, n.Body.List...)},
+	}
+}
+
+func isBlank(e ast.Expr) bool {
+	id, ok := e.(*ast.Ident)
+	return ok && id.Name == "_"
+}
+
+// addStmtPoints inserts vsched.Mem("mem") before every statement of every function body.
+func (in *instr) addStmtPoints() {
+	point := func() ast.Stmt {
+		return &ast.ExprStmt{X: in.call("Mem", &ast.BasicLit{Kind: token.STRING, Value: `"mem"`})}
+	}
+	addTo := func(list []ast.Stmt) []ast.Stmt {
+		out := make([]ast.Stmt, 0, 2*len(list))
+		for _, s := range list {
+			out = append(out, point(), s)
+		}
+		return out
+	}
+	for _, d := range in.file.Decls {
+		fd, ok := d.(*ast.FuncDecl)
+		if !ok || fd.Body == nil {
+			continue
+		}
+		ast.Inspect(fd.Body, func(n ast.Node) bool {
+			switch b := n.(type) {
+			case *ast.FuncLit:
+				return false // comparators and callbacks run atomically with their caller's statement
+			case *ast.BlockStmt:
+				b.List = addTo(b.List)
+			case *ast.CaseClause:
+				b.Body = addTo(b.Body)
+			case *ast.CommClause:
+				b.Body = addTo(b.Body)
+			}
+			return true
+		})
+	}
+}
